@@ -5,6 +5,7 @@
   string-literal body.
 -/
 import Sbepp.Gen.Literals
+import Sbepp.Lemmas.C07Escape
 
 namespace Sbepp.Gen.Literals
 open Sbepp
@@ -48,6 +49,94 @@ theorem inPrimRange_lt (p : Prim) (v : Int) (h : inPrimRange p v = true) :
   unfold inPrimRange at h
   cases p <;> simp [primRange?] at h <;> omega
 
+/-! ### `strip_leading_zeros` -/
+
+theorem digitsVal_zero_cons (ds : List Char) : digitsVal 10 ('0' :: ds) 0 = digitsVal 10 ds 0 := by
+  have h : digitVal? '0' = some 0 := by decide
+  simp [digitsVal, h]
+
+theorem digitsVal_dropZeros (ds : List Char) :
+    digitsVal 10 (ds.dropWhile (· == '0')) 0 = digitsVal 10 ds 0 := by
+  induction ds with
+  | nil => rfl
+  | cons c cs ih =>
+    by_cases hc : c = '0'
+    · subst hc
+      simp only [List.dropWhile_cons, beq_self_eq_true, if_true]
+      rw [ih, digitsVal_zero_cons]
+    · have : (c == '0') = false := by simpa using hc
+      simp [List.dropWhile_cons, this]
+
+theorem allZeros_val (ds : List Char) (h : ds.dropWhile (· == '0') = []) : digitsVal 10 ds 0 = some 0 := by
+  rw [← digitsVal_dropZeros, h]; rfl
+
+theorem allZeros_last (ds : List Char) (h : ds.dropWhile (· == '0') = []) (c : Char)
+    (hl : ds.getLast? = some c) : c = '0' := by
+  have hall : ∀ (l : List Char), l.dropWhile (· == '0') = [] → ∀ x ∈ l, x = '0' := by
+    intro l
+    induction l with
+    | nil => intro _ x hx; cases hx
+    | cons y ys ih =>
+      intro hl x hx
+      by_cases hy : y = '0'
+      · subst hy
+        simp only [List.dropWhile_cons, beq_self_eq_true, if_true] at hl
+        rcases List.mem_cons.mp hx with h1 | h1
+        · exact h1
+        · exact ih hl x h1
+      · have : (y == '0') = false := by simpa using hy
+        simp [List.dropWhile_cons, this] at hl
+  exact hall ds h c (List.mem_of_getLast? hl)
+
+/-- **strip_leading_zeros_value**: for every digit string, the stripped digits are a *decimal* C++ literal
+    (never octal) of the same value -/
+theorem stripZeros_spec {ds : List Char} {n : Nat} (h : decimal ds = some n) : cxxDigits (stripZeros ds) = some n := by
+  unfold decimal at h
+  cases hne : ds.isEmpty with
+  | true => simp [hne] at h
+  | false =>
+    simp only [hne, Bool.false_eq_true, if_false] at h
+    unfold stripZeros
+    cases hd : ds.dropWhile (· == '0') with
+    | nil =>
+      simp only
+      have hv := allZeros_val ds hd
+      rw [hv] at h
+      cases hl : ds.getLast? with
+      | none =>
+        have : ds = [] := List.getLast?_eq_none_iff.mp hl
+        simp [this] at hne
+      | some c =>
+        have hc := allZeros_last ds hd c hl
+        subst hc
+        simp only
+        rw [← h]; decide
+    | cons r rs =>
+      simp only
+      have hval : digitsVal 10 (r :: rs) 0 = some n := by rw [← hd, digitsVal_dropZeros, h]
+      have hr : r ≠ '0' := by
+        have := List.head?_dropWhile_not (· == '0') ds
+        rw [hd] at this
+        simpa using this
+      have hz : noLeadingZeroDigits (r :: rs) = true := by
+        unfold noLeadingZeroDigits
+        split
+        · rename_i heq; injection heq with h1 _; exact absurd h1 hr
+        · rfl
+      exact cxxDigits_of_decimal hz (by simp [decimal, hval])
+
+/-- the digits the generator pastes read as the value: always when it strips leading zeros, for digit strings
+    without a superfluous leading zero otherwise -/
+theorem pastedDigits_spec {ds : List Char} {n : Nat}
+    (hz : Extracted.Templates.stripsLeadingZeros = true ∨ noLeadingZeroDigits ds = true)
+    (h : decimal ds = some n) : cxxDigits (pastedDigits ds) = some n := by
+  unfold pastedDigits
+  by_cases hf : Extracted.Templates.stripsLeadingZeros = true
+  · simp only [hf, if_true]; exact stripZeros_spec h
+  · rcases hz with hz | hz
+    · exact absurd hz hf
+    · simp only [hf, Bool.false_eq_true, if_false]; exact cxxDigits_of_decimal hz h
+
 end Sbepp.Gen.Literals
 
 namespace Sbepp.Gen.Literals
@@ -76,11 +165,12 @@ theorem bracedInt_of_range {p : Prim} {v : Int} (h : inPrimRange p v = true) : b
 
 /-- a value without `-` -/
 theorem value_pos {p : Prim} {cs : List Char} {n : Nat}
-    (hneg : ∀ ds, cs ≠ '-' :: ds) (hd : decimal cs = some n) (hz : noLeadingZeroDigits cs = true)
+    (hneg : ∀ ds, cs ≠ '-' :: ds) (hd : decimal cs = some n)
+    (hz : Extracted.Templates.stripsLeadingZeros = true ∨ noLeadingZeroDigits cs = true)
     (hr : inPrimRange p (n : Int) = true) :
     (toIntegerLiteral p cs).value? = some (n : Int) := by
   have hlt := (inPrimRange_lt p _ hr).2
-  have hc := cxxDigits_of_decimal hz hd
+  have hc := pastedDigits_spec hz hd
   have hn : n < 2 ^ 64 := by exact_mod_cast hlt
   unfold toIntegerLiteral
   split
@@ -102,11 +192,12 @@ theorem natDigits_one : cxxDigits (natDigits 1) = some 1 := by decide +kernel
 
 /-- a value written with `-` -/
 theorem value_neg {p : Prim} {ds : List Char} {n : Nat}
-    (hd : decimal ds = some n) (hz : noLeadingZeroDigits ds = true)
+    (hd : decimal ds = some n)
+    (hz : Extracted.Templates.stripsLeadingZeros = true ∨ noLeadingZeroDigits ds = true)
     (hr : inPrimRange p (-(n : Int)) = true) :
     (toIntegerLiteral p ('-' :: ds)).value? = some (-(n : Int)) := by
   have hge := (inPrimRange_lt p _ hr).1
-  have hc := cxxDigits_of_decimal hz hd
+  have hc := pastedDigits_spec hz hd
   have hn : n ≤ 2 ^ 63 := by omega
   have hn64 : n < 2 ^ 64 := by omega
   unfold toIntegerLiteral
@@ -125,11 +216,12 @@ theorem value_neg {p : Prim} {ds : List Char} {n : Nat}
     simp [IntLit.value?, hc, hn64]
 
 /-- **integer_literal_value**: for an integer primitive, a value the validator accepted
-    (`value_fits_into_type`) and that is written without a leading zero is rendered by `to_integer_literal`
-    as a C++ integer constant expression of the same value, which list-initialises the primitive's C++ type
-    without narrowing -/
+    (`value_fits_into_type`) is rendered by `to_integer_literal` as a C++ integer constant expression of the
+    same value, which list-initialises the primitive's C++ type without narrowing — for every accepted text
+    when the generator strips leading zeros, for texts without a superfluous leading zero otherwise -/
 theorem integer_literal_value (p : Prim) (cs : List Char) (v : Int)
-    (h : parseIntFor p cs = some v) (hz : noLeadingZero cs = true) :
+    (h : parseIntFor p cs = some v)
+    (hz : Extracted.Templates.stripsLeadingZeros = true ∨ noLeadingZero cs = true) :
     (toIntegerLiteral p cs).value? = some v ∧ bracedInt p v = true := by
   obtain ⟨hf, hr⟩ := parseIntFor_spec h
   refine ⟨?_, bracedInt_of_range hr⟩
@@ -146,7 +238,7 @@ theorem integer_literal_value (p : Prim) (cs : List Char) (v : Int)
         | some n =>
           simp only [hd, Option.map_some, Option.some.injEq] at hf
           subst hf
-          exact value_neg hd (by simpa [noLeadingZero] using hz) hr
+          exact value_neg hd (hz.imp id (fun h => by simpa [noLeadingZero] using h)) hr
       · simp [hs] at hf
     · have hneg : ∀ ds, c :: rest ≠ '-' :: ds := by
         intro ds heq; injection heq with h1 _; exact hc h1
@@ -160,7 +252,8 @@ theorem integer_literal_value (p : Prim) (cs : List Char) (v : Int)
       | some n =>
         simp only [hd, Option.map_some, Option.some.injEq] at hf'
         subst hf'
-        have hz' : noLeadingZeroDigits (c :: rest) = true := by
+        have hz' : Extracted.Templates.stripsLeadingZeros = true ∨ noLeadingZeroDigits (c :: rest) = true := by
+          refine hz.imp id (fun hz => ?_)
           unfold noLeadingZero at hz
           split at hz
           · rename_i ds heq; exact absurd heq (hneg ds)
@@ -172,83 +265,11 @@ end Sbepp.Gen.Literals
 namespace Sbepp.Gen.Literals
 open Sbepp
 
-/-- a character that needs no escaping inside a string literal -/
-def plainChar (c : Char) : Bool := c != '"' && c != '\\' && c != '\n'
+/-! ### floating-point texts -/
 
-/-- text that can be pasted between double quotes: no quote, backslash or line break, and no `??/` trigraph -/
-def plainText (cs : List Char) : Bool := cs.all plainChar && deTrigraph cs == cs
-
-theorem lexBody_plain (cs rest : List Char) (acc : Verdict) (h : cs.all plainChar = true) :
-    lexBody '"' (cs ++ rest) acc = lexBody '"' rest acc := by
-  unfold lexBody
-  induction cs with
-  | nil => rfl
-  | cons c cs ih =>
-    simp only [List.all_cons, Bool.and_eq_true] at h
-    obtain ⟨hc, hcs⟩ := h
-    simp only [plainChar, Bool.and_eq_true, bne_iff_ne, ne_eq] at hc
-    obtain ⟨⟨hq, hb⟩, hn⟩ := hc
-    simp only [List.cons_append, lexAux]
-    have h1 : (c == '\\') = false := by simpa using hb
-    have h2 : (c == '"' || c == '\n') = false := by simp [hq, hn]
-    simp only [h1, h2, Bool.false_eq_true, if_false]
-    exact ih hcs
-
-theorem lexBody_padding (pad : Nat) (acc : Verdict) (h : acc ≠ .bad) :
-    lexBody '"' (List.replicate pad ['\\', '0']).flatten acc ≠ .bad := by
-  unfold lexBody
-  induction pad generalizing acc with
-  | zero => simpa [lexAux] using h
-  | succ n ih =>
-    simp only [List.replicate_succ, List.flatten_cons, List.cons_append, List.nil_append, lexAux]
-    have h1 : (('\\' : Char) == '\\') = true := by decide
-    have h2 : (isSimpleEscape '0' || isOctDigit '0') = true := by decide
-    simp only [h1, h2, if_true]
-    exact ih .changed (by decide)
-
-theorem no_backslash_of_plain (cs : List Char) (h : cs.all plainChar = true) : cs.any (· == '\\') = false := by
-  induction cs with
-  | nil => rfl
-  | cons c cs ih =>
-    simp only [List.all_cons, Bool.and_eq_true] at h
-    simp only [List.any_cons, Bool.or_eq_false_iff]
-    refine ⟨?_, ih h.2⟩
-    have := h.1
-    simp only [plainChar, Bool.and_eq_true, bne_iff_ne, ne_eq] at this
-    simpa using this.1.2
-
-theorem lexText_plain (tg : Bool) (cs : List Char) (pad : Nat) (h : plainText cs = true) :
-    lexText tg cs pad = .ok := by
-  simp only [plainText, Bool.and_eq_true, beq_iff_eq] at h
-  obtain ⟨hp, ht⟩ := h
-  have ht' : (if tg = true then deTrigraph cs else cs) = cs := by
-    by_cases htg : tg = true <;> simp [htg, ht]
-  unfold lexText
-  simp only [ht']
-  rw [lexBody_plain cs _ .ok hp]
-  have hne := lexBody_padding pad .ok (by decide)
-  rw [no_backslash_of_plain cs hp]
-  split
-  · rename_i heq; exact absurd heq hne
-  · rfl
-
-/-- **string_literal_ok**: plain text pasted between quotes (followed by the `\0` padding of a string
-    constant) is one well-formed string literal under both treatments of trigraphs -/
-theorem string_literal_ok (cs : List Char) (pad : Nat) (h : plainText cs = true) : stringLiteral cs pad = .ok := by
-  unfold stringLiteral
-  rw [lexText_plain false cs pad h, lexText_plain true cs pad h]
-
-theorem char_literal_ok (c : Char) (h : c ≠ '\'' ∧ c ≠ '\\' ∧ c ≠ '\n') : charLiteral [c] = .ok := by
-  simp [charLiteral, h.1, h.2.1, h.2.2]
-
-end Sbepp.Gen.Literals
-
-namespace Sbepp.Gen.Literals
-open Sbepp
-
-/-- the floating-point texts that C++ reads the way `strtof` / `strtod` do: anything with a `.` or an
-    exponent, and integer-looking texts without a leading zero whose value is below `2^64` and exactly
-    representable in the target type -/
+/-- the floating-point texts that C++ reads the way `strtof` / `strtod` do even when they are pasted as
+    written: anything with a `.` or an exponent, and integer-looking texts without a leading zero whose value
+    is below `2^64` and exactly representable in the target type -/
 def fpTextSafe (p : Prim) (cs : List Char) : Bool :=
   (fpSpecial? cs).isSome ||
   match parseFp cs with
@@ -257,73 +278,264 @@ def fpTextSafe (p : Prim) (cs : List Char) : Bool :=
       (noLeadingZeroDigits t.intDigits && decide (t.mant < 2 ^ 64) && exactInFloat (significand p) t.mant)
   | none => false
 
-theorem parseFpBody_integer {neg plus : Bool} {cs : List Char} {t : FpText}
+theorem splitWhile_spec (p : Char → Bool) (cs a b : List Char) (h : splitWhile p cs = (a, b)) :
+    cs = a ++ b ∧ a.all p = true ∧ (b = [] ∨ ∃ c r, b = c :: r ∧ p c = false) := by
+  induction cs generalizing a b with
+  | nil => simp only [splitWhile, Prod.mk.injEq] at h; obtain ⟨h1, h2⟩ := h; subst h1; subst h2; simp
+  | cons c cs ih =>
+    simp only [splitWhile] at h
+    by_cases hc : p c = true
+    · simp only [hc, if_true] at h
+      cases hs : splitWhile p cs with
+      | mk a' b' =>
+        simp only [hs, Prod.mk.injEq] at h
+        obtain ⟨h1, h2⟩ := h
+        subst h1; subst h2
+        obtain ⟨e1, e2, e3⟩ := ih a' b' hs
+        exact ⟨by simp [e1], by simp [hc, e2], e3⟩
+    · simp only [hc, Bool.false_eq_true, if_false, Prod.mk.injEq] at h
+      obtain ⟨h1, h2⟩ := h
+      subst h1; subst h2
+      exact ⟨rfl, rfl, Or.inr ⟨c, cs, rfl, by simpa using hc⟩⟩
+
+theorem splitWhile_all (p : Char → Bool) (a rest : List Char) (h : a.all p = true) :
+    splitWhile p (a ++ rest) = (a ++ (splitWhile p rest).1, (splitWhile p rest).2) := by
+  induction a with
+  | nil => simp
+  | cons c cs ih =>
+    simp only [List.all_cons, Bool.and_eq_true] at h
+    simp only [List.cons_append, splitWhile, h.1, if_true, ih h.2]
+
+theorem digitsVal_append (b : Nat) (xs ys : List Char) (acc : Nat) :
+    digitsVal b (xs ++ ys) acc = (digitsVal b xs acc).bind (fun v => digitsVal b ys v) := by
+  induction xs generalizing acc with
+  | nil => simp [digitsVal]
+  | cons c cs ih =>
+    simp only [List.cons_append, digitsVal]
+    cases digitVal? c with
+    | none => simp
+    | some d =>
+      simp only
+      by_cases hd : d < b
+      · simp only [hd, if_true]; exact ih _
+      · simp [hd]
+
+theorem noDotExp_digits (ds : List Char) (h : ds.all Char.isDigit = true) : noDotExp ds = true := by
+  simp only [noDotExp, List.all_eq_true] at h ⊢
+  intro c hc
+  have hd := h c hc
+  have h1 : c ≠ '.' := by intro e; subst e; revert hd; decide
+  have h2 : c ≠ 'e' := by intro e; subst e; revert hd; decide
+  have h3 : c ≠ 'E' := by intro e; subst e; revert hd; decide
+  simp [h1, h2, h3]
+
+/-- an integer-looking text is a non-empty digit string; `mant` is its decimal value -/
+theorem parseFpBody_int {neg plus : Bool} {cs : List Char} {t : FpText}
     (h : parseFpBody neg plus cs = some t) (hi : t.integerLooking = true) :
-    decimal t.intDigits = some t.mant := by
+    cs.all Char.isDigit = true ∧ cs ≠ [] ∧ digitsVal 10 cs 0 = some t.mant ∧
+      t = ⟨neg, plus, t.mant, 0, true, cs⟩ := by
   unfold parseFpBody at h
-  generalize splitWhile Char.isDigit cs = sp at h
-  obtain ⟨ip, rest⟩ := sp
-  simp only at h
+  cases hs : splitWhile Char.isDigit cs with
+  | mk ip rest =>
+    obtain ⟨e1, e2, -⟩ := splitWhile_spec _ _ _ _ hs
+    simp only [hs] at h
+    split at h
+    · split at h
+      · cases h
+      · split at h
+        · simp only [Option.some.injEq] at h; subst h; simp at hi
+        · cases h
+    · split at h
+      · cases h
+      · rename_i hne
+        cases hd : digitsVal 10 ip 0 with
+        | none => simp [hd] at h
+        | some m =>
+          simp only [hd, Option.map_some, Option.some.injEq] at h
+          subst h
+          simp only [List.append_nil] at e1
+          subst e1
+          exact ⟨e2, by intro hnil; subst hnil; simp at hne, hd, rfl⟩
+    · split at h
+      · cases h
+      · split at h
+        · simp only [Option.some.injEq] at h; subst h; simp at hi
+        · cases h
+
+/-- a text that is not integer-looking contains `.`, `e` or `E` -/
+theorem parseFpBody_nonint {neg plus : Bool} {cs : List Char} {t : FpText}
+    (h : parseFpBody neg plus cs = some t) (hi : t.integerLooking = false) : noDotExp cs = false := by
+  unfold parseFpBody at h
+  cases hs : splitWhile Char.isDigit cs with
+  | mk ip rest =>
+    obtain ⟨e1, -, -⟩ := splitWhile_spec _ _ _ _ hs
+    simp only [hs] at h
+    have hmem : ∀ c, c ∈ cs → (c == '.' || c == 'e' || c == 'E') = true → noDotExp cs = false := by
+      intro c hc hcc
+      simp only [noDotExp, List.all_eq_false]
+      exact ⟨c, hc, by simp [hcc]⟩
+    split at h
+    · exact hmem '.' (by rw [e1]; simp) (by decide)
+    · split at h
+      · cases h
+      · cases hd : digitsVal 10 ip 0 with
+        | none => simp [hd] at h
+        | some m =>
+          simp only [hd, Option.map_some, Option.some.injEq] at h
+          subst h; simp at hi
+    · rename_i hne1 hne2
+      split at h
+      · cases h
+      · cases rest with
+        | nil => exact absurd rfl hne2
+        | cons e r =>
+          by_cases he : e = 'e' ∨ e = 'E'
+          · exact hmem e (by rw [e1]; simp) (by rcases he with he | he <;> subst he <;> decide)
+          · simp [parseExp, he] at h
+
+/-- `digits.0` is read as the decimal number `digits` -/
+theorem parseFpBody_dot0 (neg plus : Bool) (cs : List Char) (m : Nat)
+    (hall : cs.all Char.isDigit = true) (hne : cs ≠ []) (hd : digitsVal 10 cs 0 = some m) :
+    parseFpBody neg plus (cs ++ ['.', '0']) = some ⟨neg, plus, m * 10, -1, false, cs⟩ := by
+  unfold parseFpBody
+  have h1 : splitWhile Char.isDigit (cs ++ ['.', '0']) = (cs, ['.', '0']) := by
+    rw [splitWhile_all _ _ _ hall]
+    have : splitWhile Char.isDigit ['.', '0'] = ([], ['.', '0']) := by decide
+    simp [this]
+  have h2 : splitWhile Char.isDigit ['0'] = (['0'], []) := by decide
+  have h3 : digitsVal 10 (cs ++ ['0']) 0 = some (m * 10) := by
+    rw [digitsVal_append, hd]
+    have : digitVal? '0' = some 0 := by decide
+    simp [digitsVal, this]
+  have hne' : cs.isEmpty = false := by
+    cases cs with
+    | nil => exact absurd rfl hne
+    | cons _ _ => rfl
+  simp only [h1, h2, hne', h3, parseExp]
+  simp
+
+theorem fpBelow_dot0 (neg plus : Bool) (m : Nat) (cs : List Char) (bound : Nat) :
+    fpBelow ⟨neg, plus, m * 10, -1, false, cs⟩ bound = fpBelow ⟨neg, plus, m, 0, true, cs⟩ bound := by
+  simp only [fpBelow]
+  have h1 : ¬ (0 : Int) ≤ -1 := by decide
+  have h2 : (-(-1 : Int)).toNat = 1 := by decide
+  simp only [h1, if_false, h2, Int.le_refl, if_true, Int.toNat_zero, Nat.pow_zero, Nat.mul_one, Nat.pow_one]
+  by_cases h : m < bound
+  · have : m * 10 < bound * 10 := by omega
+    simp [h, this]
+  · have : ¬ m * 10 < bound * 10 := by omega
+    simp [h, this]
+
+/-- the sign does not matter for `noDotExp` -/
+theorem noDotExp_sign (c : Char) (cs : List Char) (hc : c = '-' ∨ c = '+') : noDotExp (c :: cs) = noDotExp cs := by
+  rcases hc with hc | hc <;> subst hc <;> simp [noDotExp]
+
+/-- what `parseFp` says about a text and about the same text followed by `.0` -/
+theorem parseFp_dot0 {cs : List Char} {t : FpText} (h : parseFp cs = some t) (hn : noDotExp cs = true) :
+    ∃ t', parseFp (cs ++ ['.', '0']) = some t' ∧ t'.integerLooking = false ∧
+      ∀ bound, fpBelow t' bound = fpBelow t bound := by
+  have key : ∀ (neg plus : Bool) (body : List Char), parseFpBody neg plus body = some t → noDotExp body = true →
+      ∃ t', parseFpBody neg plus (body ++ ['.', '0']) = some t' ∧ t'.integerLooking = false ∧
+        ∀ bound, fpBelow t' bound = fpBelow t bound := by
+    intro neg plus body hb hnb
+    have hi : t.integerLooking = true := by
+      cases hti : t.integerLooking with
+      | true => rfl
+      | false => have := parseFpBody_nonint hb hti; rw [hnb] at this; cases this
+    obtain ⟨hall, hne, hd, ht⟩ := parseFpBody_int hb hi
+    refine ⟨_, parseFpBody_dot0 neg plus body t.mant hall hne hd, rfl, fun bound => ?_⟩
+    rw [fpBelow_dot0, ← ht]
+  unfold parseFp at h ⊢
   split at h
-  · -- `.` follows
+  · rename_i ds
+    have := key true false ds h (by rw [← noDotExp_sign '-' ds (Or.inl rfl)]; exact hn)
+    simpa using this
+  · rename_i ds
+    have := key false true ds h (by rw [← noDotExp_sign '+' ds (Or.inr rfl)]; exact hn)
+    simpa using this
+  · rename_i hm hp
+    have := key false false cs h hn
+    cases cs with
+    | nil => simpa using this
+    | cons c r =>
+      have h1 : c ≠ '-' := fun e => hm r (by rw [e])
+      have h2 : c ≠ '+' := fun e => hp r (by rw [e])
+      simp only [List.cons_append]
+      split
+      · rename_i heq; injection heq with e _; exact absurd e h1
+      · rename_i heq; injection heq with e _; exact absurd e h2
+      · simpa using this
+
+theorem parseFp_nonint {cs : List Char} {t : FpText} (h : parseFp cs = some t) (hn : noDotExp cs = false) :
+    t.integerLooking = false := by
+  cases hti : t.integerLooking with
+  | false => rfl
+  | true =>
+    exfalso
+    have key : ∀ (neg plus : Bool) (body : List Char), parseFpBody neg plus body = some t → noDotExp body = true := by
+      intro neg plus body hb
+      exact noDotExp_digits body (parseFpBody_int hb hti).1
+    unfold parseFp at h
     split at h
-    · cases h
-    · split at h
-      · simp only [Option.some.injEq] at h; subst h; simp at hi
-      · cases h
-  · -- end of text
-    split at h
-    · cases h
-    · rename_i hne
-      cases hd : digitsVal 10 ip 0 with
-      | none => simp [hd] at h
-      | some m =>
-        simp only [hd, Option.map_some, Option.some.injEq] at h
-        subst h
-        simp only [decimal]
-        have : ip.isEmpty = false := by simpa using hne
-        simp [this, hd]
-  · split at h
-    · cases h
-    · split at h
-      · simp only [Option.some.injEq] at h; subst h; simp at hi
-      · cases h
+    · rename_i ds
+      have := key _ _ _ h
+      rw [noDotExp_sign '-' ds (Or.inl rfl), this] at hn; cases hn
+    · rename_i ds
+      have := key _ _ _ h
+      rw [noDotExp_sign '+' ds (Or.inr rfl), this] at hn; cases hn
+    · have := key _ _ _ h
+      rw [this] at hn; cases hn
 
 theorem parseFp_integer {cs : List Char} {t : FpText}
     (h : parseFp cs = some t) (hi : t.integerLooking = true) : decimal t.intDigits = some t.mant := by
+  have key : ∀ (neg plus : Bool) (body : List Char), parseFpBody neg plus body = some t →
+      decimal t.intDigits = some t.mant := by
+    intro neg plus body hb
+    obtain ⟨_, hne, hd, ht⟩ := parseFpBody_int hb hi
+    have : t.intDigits = body := by rw [ht]
+    rw [this]
+    cases body with
+    | nil => exact absurd rfl hne
+    | cons c r => simp [decimal, hd]
   unfold parseFp at h
-  split at h <;> exact parseFpBody_integer h hi
+  split at h <;> exact key _ _ _ h
 
-/-- **float_literal_fits**: a `float` / `double` value the validator accepted, written in a safe form, is
-    pasted as a C++ constant that list-initialises the type without narrowing and denotes the same value -/
-theorem float_literal_fits (p : Prim) (cs : List Char)
-    (ha : fpAccepted p cs = true) (hs : fpTextSafe p cs = true) : fitsFp p (renderFp cs) = .ok := by
+/-- **float_literal_fits**: a `float` / `double` value the validator accepted is pasted as a C++ constant that
+    list-initialises the type without narrowing and denotes the same value — for every accepted text when the
+    generator appends `.0` to integer-looking texts, for safe texts otherwise -/
+theorem float_literal_fits (p : Prim) (cs : List Char) (ha : fpAccepted p cs = true)
+    (hs : Extracted.Templates.floatDotZero = true ∨ fpTextSafe p cs = true) : fitsFp p (renderFp cs) = .ok := by
   unfold renderFp
   cases hsp : fpSpecial? cs with
   | some sp => simp [fitsFp]
   | none =>
-    simp only [fitsFp]
+    simp only
     simp only [fpAccepted, hsp, Option.isSome_none, Bool.false_or] at ha
-    simp only [fpTextSafe, hsp, Option.isSome_none, Bool.false_or] at hs
     cases hp : parseFp cs with
     | none => simp [hp] at ha
     | some t =>
-      simp only [hp] at ha hs ⊢
-      by_cases hi : t.integerLooking = true
-      · simp only [hi, Bool.not_true, Bool.false_or, Bool.and_eq_true, decide_eq_true_eq] at hs
-        obtain ⟨⟨hz, hlt⟩, hex⟩ := hs
-        have hd := parseFp_integer hp hi
-        have hc : fpAsInteger t = some t.mant := cxxDigits_of_decimal hz hd
-        have hnot : ¬ (2 ^ 64 ≤ t.mant) := by omega
-        simp [hi, hc, hnot, hex]
-      · simp only [hi, Bool.false_eq_true, if_false]
-        simp only [fpInRange, Bool.and_eq_true] at ha
-        simp [ha.1]
-
-end Sbepp.Gen.Literals
-
-namespace Sbepp.Gen.Literals
-open Sbepp
+      simp only [hp] at ha
+      simp only [fpInRange, Bool.and_eq_true] at ha
+      by_cases hf : Extracted.Templates.floatDotZero = true
+      · by_cases hn : noDotExp cs = true
+        · obtain ⟨t', hp', hi', hb'⟩ := parseFp_dot0 hp hn
+          simp [hf, hn, fitsFp, hp', hi', hb', ha.1]
+        · have hn' : noDotExp cs = false := by simpa using hn
+          have hi := parseFp_nonint hp hn'
+          simp [hf, hn', fitsFp, hp, hi, ha.1]
+      · rcases hs with hs | hs
+        · exact absurd hs hf
+        · have hf' : Extracted.Templates.floatDotZero = false := by simpa using hf
+          simp only [hf', Bool.false_and, Bool.false_eq_true, if_false, fitsFp, hp]
+          simp only [fpTextSafe, hsp, Option.isSome_none, Bool.false_or, hp] at hs
+          by_cases hi : t.integerLooking = true
+          · simp only [hi, Bool.not_true, Bool.false_or, Bool.and_eq_true, decide_eq_true_eq] at hs
+            obtain ⟨⟨hz, hlt⟩, hex⟩ := hs
+            have hd := parseFp_integer hp hi
+            have hc : fpAsInteger t = some t.mant := cxxDigits_of_decimal hz hd
+            have hnot : ¬ (2 ^ 64 ≤ t.mant) := by omega
+            simp [hi, hc, hnot, hex]
+          · simp [hi, ha.1]
 
 /-- largest value of the C++ type of an integer primitive -/
 def primMaxNat? : Prim → Option Nat
@@ -388,18 +600,20 @@ def Site.validated (s : Site) : Bool :=
   | .chr, .chr cs => cs.length == 1
   | _, _ => false
 
-/-- the input classes on which the current generator is correct -/
+/-- the input classes on which the current generator is correct.  The conditions on explicit numbers and on
+    text disappear when `Extracted.Templates` says the generator normalises / escapes them -/
 def Site.plain (s : Site) : Bool :=
   match s.target, s.text with
-  | .prim _, .int _ cs => noLeadingZero cs
-  | .prim p, .fp cs => fpTextSafe p cs
+  | .prim _, .int _ cs => Extracted.Templates.stripsLeadingZeros || noLeadingZero cs
+  | .prim p, .fp cs => Extracted.Templates.floatDotZero || fpTextSafe p cs
   | .prim p, .nat n => natFits p n
   | .prim p, .enumRef v =>
     (match v with
      | some x => !p.isFloat || exactInFloat (significand p) x.natAbs
      | none => false)
-  | .str, .str cs _ => plainText cs
-  | .chr, .chr cs => cs.all (fun c => c != '\'' && c != '\\' && c != '\n')
+  | .str, .str cs _ => Extracted.Templates.escapesLiterals || plainText cs
+  | .chr, .chr cs =>
+    Extracted.Templates.escapesLiterals || cs.all (fun c => c != '\'' && c != '\\' && c != '\n' && c != '?')
   | _, _ => true
 
 /-- a validated site with plain input is well-formed and denotes the schema value -/
@@ -416,13 +630,13 @@ theorem site_fits (s : Site) (hv : s.validated = true) (hp : s.plain = true) : s
       cases hpi : parseIntFor p cs with
       | none => simp [hpi] at hsome
       | some v =>
-        obtain ⟨hval, hbr⟩ := integer_literal_value p cs v hpi hp
+        obtain ⟨hval, hbr⟩ := integer_literal_value p cs v hpi (by simpa [Bool.or_eq_true] using hp)
         have hfc := fromChars_signed (parseIntFor_spec hpi).1
         simp [Site.verdict, hval, hbr, hfc]
     | fp cs =>
       simp only [Site.validated, Bool.and_eq_true] at hv
       simp only [Site.plain] at hp
-      simp [Site.verdict, hv.1, float_literal_fits p cs hv.2 hp]
+      simp [Site.verdict, hv.1, float_literal_fits p cs hv.2 (by simpa [Bool.or_eq_true] using hp)]
     | nat n =>
       simp only [Site.plain] at hp
       have := bracedInt_nat p n hp
@@ -462,7 +676,7 @@ theorem site_fits (s : Site) (hv : s.validated = true) (hp : s.plain = true) : s
     cases text with
     | str cs pad =>
       simp only [Site.plain] at hp
-      simp [Site.verdict, string_literal_ok cs pad hp]
+      simp [Site.verdict, string_literal_ok cs pad (by simpa [Bool.or_eq_true] using hp)]
     | _ => simp [Site.validated] at hv
   | chr =>
     cases text with
@@ -471,8 +685,34 @@ theorem site_fits (s : Site) (hv : s.validated = true) (hp : s.plain = true) : s
       simp only [Site.plain] at hp
       match cs, hv with
       | [c], _ =>
-        simp only [List.all_cons, List.all_nil, Bool.and_true, Bool.and_eq_true, bne_iff_ne, ne_eq] at hp
-        simp [Site.verdict, char_literal_ok c ⟨hp.1.1, hp.1.2, hp.2⟩]
+        have hc : Extracted.Templates.escapesLiterals = true ∨ (c ≠ '\'' ∧ c ≠ '\\' ∧ c ≠ '\n' ∧ c ≠ '?') := by
+          simp only [Bool.or_eq_true, List.all_cons, List.all_nil, Bool.and_true, Bool.and_eq_true, bne_iff_ne,
+            ne_eq] at hp
+          exact hp.imp id (fun h => ⟨h.1.1.1, h.1.1.2, h.1.2, h.2⟩)
+        simp [Site.verdict, char_literal_ok c hc]
     | _ => simp [Site.validated] at hv
+
+end Sbepp.Gen.Literals
+
+namespace Sbepp.Gen.Literals
+open Sbepp
+
+/-- sites whose value sbeppc pastes without any check of its own: header-filler constants braced into the
+    header member type, and the enumerator behind a `valueRef` braced into the constant's type -/
+def Site.unchecked (s : Site) : Bool :=
+  match s.target, s.text with
+  | .prim _, .nat _ => true
+  | .prim _, .enumRef _ => true
+  | _, _ => false
+
+/-- with the generator normalising numbers and escaping text, every validated site other than the unchecked
+    ones is well-formed -/
+theorem site_fits_checked (s : Site)
+    (h1 : Extracted.Templates.stripsLeadingZeros = true) (h2 : Extracted.Templates.floatDotZero = true)
+    (h3 : Extracted.Templates.escapesLiterals = true)
+    (hv : s.validated = true) (hu : s.unchecked = false) : s.verdict = .ok := by
+  apply site_fits s hv
+  obtain ⟨kind, entity, text, target⟩ := s
+  cases target <;> cases text <;> simp_all [Site.plain, Site.unchecked]
 
 end Sbepp.Gen.Literals
